@@ -7,8 +7,10 @@ if ! git diff --quiet; then echo "repo working tree not clean"; exit 2; fi
 git apply "$patch" || { echo "patch does not apply"; exit 2; }
 echo "== build"; GOFLAGS=-mod=mod GOPROXY=off go build ./... || { git checkout -- .; exit 3; }
 echo "== repo tests"; /verif/tools/repotest.sh
+ev=$(mktemp -d /tmp/evsave_XXXX); cp -a /verif/evidence/. "$ev"/   # evidence must describe the unchanged tree: save and restore
 for p in "$@"; do
   echo "== check $p"
-  (cd /verif && bin/vcheck run --prop "$p" --tier quick 2>&1 | grep -E "^VIOLATION|^KNOWN|^INCONCL|^ENGINE|^LEMMA|^C[0-9]+ tier|^  harness" | cut -c1-260 | head -12)
+  (cd /verif && VF_EVIDENCE_DIR=/verif/replays/seedruns bin/vcheck run --prop "$p" --tier quick 2>&1 | grep -E "^VIOLATION|^KNOWN|^INCONCL|^ENGINE|^LEMMA|^C[0-9]+ tier|^  harness" | cut -c1-260 | head -12)
 done
+cp -a "$ev"/. /verif/evidence/; rm -rf "$ev"
 cd /repo && git checkout -- . && git status --short | head -3
